@@ -169,7 +169,7 @@ def plan(tier, seed):
     items = []
     q = tier == "quick"
     for s in SINGLES:
-        items.append(dict(scenario="shutdown", params=dict(layers=[s], busy=True), bounds=dict(P=1 if q else 2)))
+        items.append(dict(scenario="shutdown", params=dict(layers=[s], busy=True), bounds=dict(P=1 if q else 2, post_release=True)))
         if not q:
             items.append(dict(scenario="shutdown", params=dict(layers=[s], busy=False), bounds=dict(P=2)))
     for pr in PAIRS:
